@@ -979,6 +979,12 @@ def strip_attrs(txt):
         s = line.strip()
         if s.startswith("///") or s.startswith("//!"):
             continue
+        md = re.match(r"#\[derive\((.*)\)\]$", s)
+        if md:
+            keep = [x.strip() for x in md.group(1).split(",") if x.strip() in ("Clone", "Copy", "PartialEq", "Eq")]
+            if keep:
+                out.append(line[:len(line) - len(line.lstrip())] + "#[derive(" + ", ".join(keep) + ")]")
+            continue
         if re.match(r"#\[(inline|must_use|derive|allow|doc|cfg_attr|repr|cold|track_caller|error|cfg)\b.*\]$", s):
             continue
         line = re.sub(r"#\[(from|source)\]\s*", "", line)
